@@ -28,10 +28,17 @@ Judge(c) ==
          key |-> h[v.run].key, act |-> h[v.run].act, env |-> h[v.run].env, otheract |-> h[v.other].act,
          otherenv |-> h[v.other].env] : v \in Violations(h)}
 
+\* not a verdict about meson but about the experiment: observations with a past that have no fresh witness
+Incomplete(c) ==
+    LET h == History(c)
+    IN {[id |-> c.id, clause |-> "Unwitnessed", file |-> "-", run |-> j, other |-> j, key |-> h[j].key, act |-> h[j].act,
+         env |-> h[j].env, otheract |-> h[j].act, otherenv |-> h[j].env] : j \in Unwitnessed(h)}
+
 Init == i \in 1..Len(Cases) /\ done = FALSE
 Next == /\ ~done
         /\ done' = TRUE
         /\ i' = i
         /\ \A v \in Judge(Cases[i]) : PrintT(ToJson(v))
+        /\ \A v \in Incomplete(Cases[i]) : PrintT(ToJson(v))
 Spec == Init /\ [][Next]_vars
 =============================================================================
